@@ -71,9 +71,11 @@ def cmd_digests(prop, seed, n, opts):
     eng = importlib.import_module(ENGINES[prop])
     eng.worker_setup(eng.prepare_opts(opts))
     try:
+        from . import runner
+        runner._ENGINE = eng
         out = {}
         for run in range(n):
-            res = eng.run_plan(eng.make_plan(seed, run), deep=True)
+            plan, res = runner.make_and_run_hermetic(eng, seed, run, deep=True)
             out[str(run)] = res["digest"]
     finally:
         eng.worker_teardown()
